@@ -86,7 +86,10 @@ Inductive op :=
 | OpSegFree (j : N)
 | OpObsAll
 | OpAllocMax
-| OpDump.
+| OpDump
+| OpObj (k : N)
+| OpQueryAll              (* the C01 readers on every section/segment, boundary indices *)
+| OpQueryAll18.           (* the C18 readers likewise *)
 
 (* observation lines: a numeric tag, numbers, optionally a byte string *)
 Inductive obs :=
@@ -141,6 +144,7 @@ Definition T_SEGDATA := 107. (* b 107 j filesz : data | null *)
 Definition T_COUNTS := 108.  (* n 108 nsec nseg *)
 Definition T_ALLOCMAX := 109.
 Definition T_DUMP := 110.
+Definition T_OBJ := 120.     (* n 120 <k>: following operations act on object k *)
 Definition T_HASH := 90.     (* n 90 <kind 0=sysv 1=gnu> <hash> *)
 Definition T_VD := 86.       (* b 86 <k> <no> <ret> [flags ndx hash] : dep *)
 
@@ -151,7 +155,9 @@ Inductive acc :=
 | AVs (a : vs_acc)
 | AVer (sec : N) (num : N).
 
-Record world := mkWorld0 { w_el : elfio; w_accs : list (N * acc); w_allocs : list N }.
+Record world := mkWorld1 { w_el : elfio; w_accs : list (N * acc); w_allocs : list N;
+                          w_cur : N; w_others : list (N * (elfio * list (N * acc) * list N)) }.
+Definition mkWorld0 (el : elfio) (accs : list (N * acc)) (al : list N) : world := mkWorld1 el accs al 0 [].
 Definition mkWorld (el : elfio) : world := mkWorld0 el [] [].
 
 Fixpoint find_acc (l : list (N * acc)) (k : N) : option acc :=
@@ -160,8 +166,8 @@ Fixpoint find_acc (l : list (N * acc)) (k : N) : option acc :=
   | (k', a) :: t => if k =? k' then Some a else find_acc t k
   end.
 Definition set_acc (w : world) (el : elfio) (k : N) (a : acc) : world :=
-  mkWorld0 el ((k, a) :: w_accs w) (w_allocs w).
-Definition keep (w : world) (el : elfio) : world := mkWorld0 el (w_accs w) (w_allocs w).
+  mkWorld1 el ((k, a) :: w_accs w) (w_allocs w) (w_cur w) (w_others w).
+Definition keep (w : world) (el : elfio) : world := mkWorld1 el (w_accs w) (w_allocs w) (w_cur w) (w_others w).
 
 Definition host_order : endian := LSB.    (* the machine the correspondence runs on *)
 
@@ -351,7 +357,7 @@ Definition dump_all (el : elfio) : res elfio :=
 
 Fixpoint list_max (l : list N) : N := match l with [] => 0 | x :: t => N.max x (list_max t) end.
 
-Definition step (w : world) (o : op) : res (world * list obs) :=
+Definition step1 (w : world) (o : op) : res (world * list obs) :=
   let el := w_el w in
   let mkWorld := keep w in
   match o with
@@ -410,7 +416,7 @@ Definition step (w : world) (o : op) : res (world * list obs) :=
       '(el1, ok, al) <- load junk0 el (if file then FileBuf else StringBuf) content lazy ;;
       (* load( file_name ) closes its stream after an eager load *)
       let el2 := if file && negb lazy then with_stream el1 None else el1 in
-      Ok (mkWorld0 el2 (w_accs w) al, [ObN T_LOAD [b2n ok]])
+      Ok (mkWorld1 el2 (w_accs w) al (w_cur w) (w_others w), [ObN T_LOAD [b2n ok]])
   | OpSave cap =>
       '(el1, os, ok) <- save junk0 el (new_ostream cap) ;;
       Ok (mkWorld el1, [ObB T_SAVE [b2n ok] (Some (os_bytes os))])
@@ -439,6 +445,15 @@ Definition step (w : world) (o : op) : res (world * list obs) :=
       Ok (mkWorld el2, [obs_hdr el; ObN T_COUNTS [nsec; nseg]] ++ o1 ++ o2)
   | OpAllocMax => Ok (w, [ObN T_ALLOCMAX [list_max (w_allocs w)]])
   | OpDump => el1 <- dump_all el ;; Ok (mkWorld el1, [ObN T_DUMP [1]])
+  | OpObj k =>
+      if k =? w_cur w then Ok (w, [ObN T_OBJ [k]])
+      else
+        let saved := (w_cur w, (w_el w, w_accs w, w_allocs w)) :: filter (fun p => negb (fst p =? w_cur w)) (w_others w) in
+        let rest := filter (fun p => negb (fst p =? k)) saved in
+        match find (fun p => fst p =? k) saved with
+        | Some (_, (e, a, al)) => Ok (mkWorld1 e a al k rest, [ObN T_OBJ [k]])
+        | None => Ok (mkWorld1 (empty_elfio false) [] [] k rest, [ObN T_OBJ [k]])
+        end
   | OpHashElf name => Ok (w, [ObN T_HASH [0; elf_hash (take_cstr name)]])
   | OpHashGnu name => Ok (w, [ObN T_HASH [1; elf_gnu_hash (take_cstr name)]])
   (* ---- symbols ---- *)
@@ -663,6 +678,140 @@ Definition step (w : world) (o : op) : res (world * list obs) :=
                end])
       | _ => Fault NullDeref
       end
+  | OpQueryAll | OpQueryAll18 => Ok (w, [])      (* expanded by [step] below *)
+  end.
+
+(* composite operations keep the observations made before a fault *)
+Definition pres := (world * list obs * option fault)%type.
+
+Fixpoint run_list (w : world) (ops : list op) (acc : list obs) : pres :=
+  match ops with
+  | [] => (w, acc, None)
+  | o :: t =>
+      match step1 w o with
+      | Ok (w1, out) => run_list w1 t (acc ++ out)
+      | Fault f => (w, acc, Some f)
+      end
+  end.
+
+Definition pthen (r : pres) (k : world -> list obs -> pres) : pres :=
+  match r with
+  | (w, o, None) => k w o
+  | (w, o, Some f) => (w, o, Some f)
+  end.
+
+(* boundary indices around a count *)
+Definition probe_idx (n : N) : list N :=
+  [0; 1; wrap64 (n + 18446744073709551615); n; wrap64 (n + 1); 4294967295].
+
+Definition acc_note_num (w : world) (k : N) : N :=
+  match find_acc (w_accs w) k with Some (ANote a) => wrap32 (lenN (na_starts a)) | _ => 0 end.
+Definition acc_mod_num (w : world) (k : N) : N :=
+  match find_acc (w_accs w) k with Some (AMod a) => wrap32 (lenN (ma_content a)) | _ => 0 end.
+Definition acc_ver_num (w : world) (k : N) : N :=
+  match find_acc (w_accs w) k with Some (AVer _ n) => n | _ => 0 end.
+Definition acc_vs_num (w : world) (k : N) : N :=
+  match find_acc (w_accs w) k with Some (AVs a) => va_num a | _ => 0 end.
+Definition acc_dyn_num (w : world) (k : N) : N :=
+  match find_acc (w_accs w) k with Some (ADyn a) => da_num a | _ => 0 end.
+
+(* C01 readers on section i *)
+Definition query_section (w : world) (i : N) (acc : list obs) : pres :=
+  match get_sec (w_el w) i with
+  | None => (w, acc, None)
+  | Some s =>
+      let ty := sh_type s in
+      pthen (if ty =? SHT_STRTAB then run_list w (map (fun ix => OpStrGet i ix) (probe_idx (sh_size s))) acc
+             else (w, acc, None)) (fun w1 o1 =>
+      pthen (if (ty =? SHT_SYMTAB) || (ty =? SHT_DYNSYM) then
+               let n := get_symbols_num (w_el w1) s in
+               run_list w1 (OpSymNum i :: map (fun ix => OpSymGet i ix) (probe_idx n)) o1
+             else (w1, o1, None)) (fun w2 o2 =>
+      pthen (if ty =? SHT_NOTE then
+               pthen (run_list w2 [OpNoteNew (1000 + i) false i; OpNoteNum (1000 + i)] o2) (fun wa oa =>
+               run_list wa (map (fun ix => OpNoteGet (1000 + i) ix) (probe_idx (acc_note_num wa (1000 + i)))) oa)
+             else (w2, o2, None)) (fun w3 o3 =>
+      pthen (if ty =? SHT_DYNAMIC then
+               pthen (run_list w3 [OpDynNew (1000 + i) i; OpDynNum (1000 + i)] o3) (fun wa oa =>
+               run_list wa (map (fun ix => OpDynGet (1000 + i) ix) (probe_idx (acc_dyn_num wa (1000 + i)))) oa)
+             else (w3, o3, None)) (fun w4 o4 =>
+      if bytes_eqb (s_name s) dot_modinfo then
+        pthen (run_list w4 [OpModNew (1000 + i) i; OpModNum (1000 + i)] o4) (fun wa oa =>
+        run_list wa (map (fun ix => OpModGet (1000 + i) ix) (probe_idx (acc_mod_num wa (1000 + i)))) oa)
+      else (w4, o4, None)))))
+  end.
+
+Definition query_segment (w : world) (j : N) (acc : list obs) : pres :=
+  match get_seg (w_el w) j with
+  | None => (w, acc, None)
+  | Some g =>
+      if p_type g =? PT_NOTE then
+        pthen (run_list w [OpNoteNew (2000 + j) true j; OpNoteNum (2000 + j)] acc) (fun wa oa =>
+        run_list wa (map (fun ix => OpNoteGet (2000 + j) ix) (probe_idx (acc_note_num wa (2000 + j)))) oa)
+      else (w, acc, None)
+  end.
+
+(* C18 readers on section i *)
+Definition SHT_INIT_ARRAY := 14.
+Definition SHT_FINI_ARRAY := 15.
+Definition SHT_PREINIT_ARRAY := 16.
+Definition SHT_GNU_verdef := 1879048189.
+Definition SHT_GNU_verneed := 1879048190.
+Definition SHT_GNU_versym := 1879048191.
+
+Definition probe_names : list bytes :=
+  [[]; [109; 97; 105; 110]; [112; 114; 105; 110; 116; 102]; [95; 115; 116; 97; 114; 116]; [120]].
+
+Definition query_section18 (w : world) (i : N) (acc : list obs) : pres :=
+  match get_sec (w_el w) i with
+  | None => (w, acc, None)
+  | Some s =>
+      let ty := sh_type s in
+      pthen (if (ty =? SHT_REL) || (ty =? SHT_RELA) then
+               let n := rel_entries_num s in
+               run_list w (OpRelNum i :: flat_map (fun ix => [OpRelGet i ix; OpRelGetF i ix]) (probe_idx n)) acc
+             else (w, acc, None)) (fun w1 o1 =>
+      pthen (if (ty =? SHT_SYMTAB) || (ty =? SHT_DYNSYM) then
+               run_list w1 (map (fun nm => OpSymName i nm) probe_names ++
+                            [OpSymVal i 0; OpSymVal i 4198400; OpArrange i 65535]) o1
+             else (w1, o1, None)) (fun w2 o2 =>
+      pthen (if (ty =? SHT_INIT_ARRAY) || (ty =? SHT_FINI_ARRAY) || (ty =? SHT_PREINIT_ARRAY) then
+               let wd := if class32 (w_el w2) then 4 else 8 in
+               run_list w2 (OpArrNum i wd :: map (fun ix => OpArrGet i wd ix) (probe_idx (arr_entries_num s wd))) o2
+             else (w2, o2, None)) (fun w3 o3 =>
+      pthen (if ty =? SHT_GNU_versym then
+               pthen (run_list w3 [OpVsNew (3000 + i) i; OpVsNum (3000 + i)] o3) (fun wa oa =>
+               run_list wa (map (fun ix => OpVsGet (3000 + i) ix) (probe_idx (acc_vs_num wa (3000 + i)))) oa)
+             else (w3, o3, None)) (fun w4 o4 =>
+      pthen (if ty =? SHT_GNU_verneed then
+               pthen (run_list w4 [OpVnNew (3000 + i) i; OpVnNum (3000 + i)] o4) (fun wa oa =>
+               run_list wa (map (fun ix => OpVnGet (3000 + i) ix) [0; 1; 2; acc_ver_num wa (3000 + i); 4294967295]) oa)
+             else (w4, o4, None)) (fun w5 o5 =>
+      if ty =? SHT_GNU_verdef then
+        pthen (run_list w5 [OpVdNew (3000 + i) i; OpVdNum (3000 + i)] o5) (fun wa oa =>
+        run_list wa (map (fun ix => OpVdGet (3000 + i) ix) [0; 1; 2; acc_ver_num wa (3000 + i); 4294967295]) oa)
+      else (w5, o5, None))))))
+  end.
+
+Fixpoint query_loop {A} (q : world -> N -> list obs -> pres) (w : world) (i : N) (fuel : list A) (acc : list obs) : pres :=
+  match fuel with
+  | [] => (w, acc, None)
+  | _ :: t => pthen (q w i acc) (fun w1 o => query_loop q w1 (i + 1) t o)
+  end.
+
+Definition step (w : world) (o : op) : pres :=
+  match o with
+  | OpQueryAll =>
+      let el := w_el w in
+      pthen (query_loop query_section w 0 (firstnN (el_secs el) (wrap16 (lenN (el_secs el)))) []) (fun w1 o1 =>
+      query_loop query_segment w1 0 (firstnN (el_segs el) (wrap16 (lenN (el_segs el)))) o1)
+  | OpQueryAll18 =>
+      let el := w_el w in
+      query_loop query_section18 w 0 (firstnN (el_secs el) (wrap16 (lenN (el_secs el)))) []
+  | _ => match step1 w o with
+         | Ok (w1, out) => (w1, out, None)
+         | Fault f => (w, [], Some f)
+         end
   end.
 
 Fixpoint run_ops (w : world) (ops : list op) : list obs :=
@@ -670,8 +819,8 @@ Fixpoint run_ops (w : world) (ops : list op) : list obs :=
   | [] => []
   | o :: t =>
       match step w o with
-      | Ok (w1, out) => out ++ run_ops w1 t
-      | Fault f => [ObFault f]
+      | (w1, out, None) => out ++ run_ops w1 t
+      | (_, out, Some f) => out ++ [ObFault f]
       end
   end.
 
